@@ -80,6 +80,13 @@ CHECKS = {
             "name.  The composition of these into one end-to-end statement about the result dict is checked, not proved: Validate.build is run in Coq on every "
             "subset case and must return exactly the implementation's result.  Findings K12-K14 recorded; F6 fixed (6ad4bca).",
             "full for the no-value law; object half = lemmas + correspondence (end-to-end composition not proved)"),
+    "C04": ("Coq theorems per element (scalars unaltered, number = float(int), arrays keep length/items, declared vs additional member resolution) + refuted witnesses (K8, K13) + vm_compute correspondence of every constructed result + retrieves oracle",
+            "PARTIAL proof: C04_scalar_unaltered, C04_number, C04_array_length, C04_array_no_items, C04_declared_member, C04_additional_member hold for every "
+            "element/oracle/value; the recursive statement 'every member at every depth is retrievable' is not proved as one theorem.  It is decided on each run by "
+            "(i) evaluating Validate.build in Coq on every generated (tree, value) and requiring the identical constructed result from the implementation, and (ii) the "
+            "retrieves walk of input vs returned model on the implementation.  The two false halves (equal float beyond 2^53, member collision) are refuted in Coq and "
+            "recorded as findings.",
+            "partial (per-element lemmas + refutations; the recursive composition is correspondence + oracle)"),
 }
 
 REASONS_PENDING = "check under construction in this session: not yet claimed"
